@@ -493,19 +493,19 @@ def family_file(rng, fam, prec, clean):
 def gif_big(rng):
     """GIF whose code table fills up (more than 4096 symbols): both the "clear when full" and the "keep going with a
     full table" encoders, all code sizes, interlaced or not, runs (KwKwK symbols) and noise mixed"""
-    w, h = rng.range(60, 90), rng.range(55, 80)
-    bits = rng.range(2, 8)
+    w, h = rng.range(100, 130), rng.range(90, 110)
+    bits = rng.range(5, 8)
     d = b"GIF89a" + le(w, 2) + le(h, 2) + bytes([0x80 | (bits - 1), 0, 0]) + rng.bytes(3 << bits)
     d += b"," + le(0, 2) + le(0, 2) + le(w, 2) + le(h, 2) + bytes([0x40 if rng.chance(1, 2) else 0])
     pix, cur = [], 0
     while len(pix) < w * h:
-        if rng.chance(1, 3):
-            pix += [cur] * rng.range(1, 40)
+        if rng.chance(1, 12):
+            pix += [cur] * rng.range(1, 6)
         else:
             cur = rng.below(1 << bits)
             pix.append(cur)
     pix = pix[:w * h]
-    comp = lzw_encode(bits if bits >= 2 else 2, pix, rng, False, defer_clear=rng.chance(1, 2))
+    comp = lzw_encode(bits, pix, rng, False, defer_clear=rng.chance(2, 3))
     d += bytes([max(2, bits)])
     i = 0
     while i < len(comp):
@@ -673,7 +673,7 @@ def run(ctx):
     cases += matrix_cases(rng, ctx.n(1200, 20000))
     for i in range(ctx.n(3000, 50000)):
         cases.append(rd_case(rng))
-    for i in range(ctx.n(6, 60)):
+    for i in range(ctx.n(4, 40)):
         cases.append(("rd %d 0 %s" % (1 << 20, gif_big(rng).hex()), "rd-gif-tablefull", {"maxpixels": 1 << 20, "prec": 8}))
     return run_cases(ctx, cases, exes, drv, flavours)
 
